@@ -616,6 +616,37 @@ func parkedVariants(r *rand.Rand, n int) []scase {
 	return out
 }
 
+// watchCases (real runs only, monitor only): finished calls of every shape — clean end, error before / after a message,
+// on the bare connection and through the generated wrappers — whose handler ties a helper goroutine to its context right
+// before returning; the caller's context stays live after the call. The helper must end with the call.
+func watchCases() []scase {
+	var out []scase
+	for _, s := range [][4]string{
+		{"unary", "R,M1", "OK", "s1,c,r,h,t"},
+		{"unary", "R,Ha=1", "E5:e0", "s1,c,r,h,t"},
+		{"unary", "R", "Pboom", "s1,c,r,h,t"},
+		{"unaryS", "R,M1", "OK", "s1,c,r,r,h,t"},
+		{"unaryS", "R", "E9:e0", "s1,c,r,t"},
+		{"sstream", "R,M1,M2", "OK", "s2,c,r,r,r,t"},
+		{"sstream", "R,M1", "E9:quota", "s2,c,r,r,t"},
+		{"cstream", "R,R,M7", "OK", "s1,c,r,r,h,t"},
+		{"cstream", "R,R", "E3:e0", "s1,c,r,t"},
+		{"bidi", "R,M1,R,M2,R", "OK", "s1,r,s2,r,c,r,t"},
+		{"bidi", "R,M1,R", "E5:e0", "s1,r,c,r,t"},
+	} {
+		out = append(out, scase{Shape: s[0], Out: "-", Srv: s[1], Fin: s[2], Cli: s[3], Watch: true})
+		if s[2] == "OK" {
+			out = append(out, scase{Shape: s[0], Out: "u=1", Srv: s[1], Fin: s[2], Cli: s[3], Ctx: "Iup=7,D,P", Watch: true})
+		}
+		for _, v := range viaNames {
+			if (s[0] == "unary" || s[0] == "sstream") && viaOK(v, s[0], s[3]) {
+				out = append(out, scase{Shape: s[0], Out: "-", Srv: s[1], Fin: s[2], Cli: s[3], Via: v, Watch: true})
+			}
+		}
+	}
+	return out
+}
+
 // passCases: every call shape with a party whose message type is not the other side's (pass.go), messages in
 // both directions, payload 0 included (an int32 zero is not encoded at all).
 func passCases() []scase {
